@@ -169,11 +169,13 @@ def compose(kind):
         wm = sender.buildPacket(WriteMultipleRegistersRequest(1, [1, 2, 3], unit=1))     # a request whose length depends on a byte count further in
         bad = bytearray(frames[0]); bad[-3 if kind != 'rtu' else -1] ^= 0x01
         alphabet = {'random': bytes(E.int('g%d' % i, 0, 256) for i in range(E.int('glen', 0, 12))), 'delims': b':{}\r\n{:', 'truncated': frames[-1][:E.int('cut', 1, len(frames[-1]))],
-                    'badcheck': bytes(bad), 'foreign': foreign, 'none': b'', 'truncated-before-byte-count': wm[:E.int('cut16', 2, 7)]}
+                    'badcheck': bytes(bad), 'foreign': foreign, 'none': b'', 'truncated-before-byte-count': wm[:E.int('cut16', 2, 7)],
+                    'truncated-long': wm[:len(wm) - E.int('cutl', 2, 6)]}         # an abandoned frame longer than the frames that follow
         kind_g = E.choice('garbage', sorted(alphabet))
         garbage = alphabet[kind_g]
         got = []
         errors = 0
+        resets = 0
         if E.bool('a_frame_was_served_before'):
             # a receiver that has already served a request is in its steady state (for RTU: empty header), not in its constructor's state
             try:
@@ -184,6 +186,7 @@ def compose(kind):
             fr.processIncomingPacket(garbage, got.append, [1])
         except Exception:
             errors += 1
+            resets += 1
             fr.resetFrame()              # what every serving loop does when the framer raises
         got.clear()
         delivered_from = None
@@ -192,10 +195,13 @@ def compose(kind):
             try:
                 fr.processIncomingPacket(b''.join(frames[k * per_read:(k + 1) * per_read]), got.append, [1])
             except Exception:
+                resets += 1
                 fr.resetFrame()
             backlog = max(backlog, len(fr._buffer))
         ok_after = all(any(getattr(m, 'address', None) == k + 1 for m in got) for k in range(2 * per_read, 5 * per_read))
-        fk = {'finding': 'C11-F1', 'region': kind == 'ascii' and kind_g in ('badcheck', 'delims', 'truncated', 'random', 'truncated-before-byte-count')}
+        # C11-F1 is the ASCII receiver holding on to a line whose check failed WITHOUT raising (nobody resets it); where it raised, the serving
+        # loop's resetFrame has put it back to a frame boundary and the frames after that must come through
+        fk = {'finding': 'C11-F1', 'region': kind == 'ascii' and resets == 0 and kind_g in ('badcheck', 'delims', 'truncated', 'random', 'truncated-before-byte-count', 'truncated-long')}
         E.prove('compose:every-frame-after-the-first-two-is-delivered', ok_after, **fk)
         E.prove('compose:backlog-below-two-maximum-frames', backlog <= 2 * 520)
     return lemma
